@@ -79,6 +79,16 @@ CHECKS = {
    text="TLC enumerates every key subset of a universe with the empty key and prefixes, every assignment of keys to slots (the hash is an arbitrary function chosen per load - every collision-chain shape), every slot-sorted item order and load/failed-load/never-loaded histories, and checks Get = Go-map semantics for every probe and probe slot. Recorded histories of real StrMap[int], StrMap[struct] and Str2Str instances (fresh random seeds per instance, reloads growing/shrinking, failed loads, never loaded, up to 5000 keys) are validated: each load must be an enabled Load action on the real table (slots, hashtable, prime count read through the hook; Item enumeration), each Get must match MapAbs and ImplGet on the real table.",
    note="Trusted: TLC, hook strmap.VerifTable/VerifSlot, hex projection of keys, injective value encodings. Executions are not deterministic (maphash seeds): a rejected case is confirmed by re-running 300 fresh copies. 10^5-key maps are compared with a Go map in Go (monitor).",
    design="6 C07"),
+ "C18": dict(
+   technique="TLA+ exception algebra (Exceptions) checked by TLC over the full case table + TLC-judged results of the real helpers",
+   text="TLC checks the clauses of C18 on the algebra over all kinds x boundary type ids x messages x prefixes x cause chains (depth <= 2). The same table plus random int32 type ids, long/binary messages and wrapped chains is replayed on PrependError, NewProtocolExceptionWithErr, errors.Is (pairwise truth table with targeted matches and near-misses) and Unwrap; TLC computes the expected dynamic kind, TypeId, Error() text (incl. the default-message table) and Is outcome.",
+   note="Trusted: TLC, the description of Go error values as records (kind by type switch, identity by uid). Thin use of the technique: a finite algebra enumerated by TLC and replayed.",
+   design="6 C18"),
+ "C19": dict(
+   technique="TLA+ single-buffer/two-handle model (ApacheBridge) checked by TLC + validation of recorded operation sequences on the real buffer and transport",
+   text="TLC checks FIFO order and Remaining = unread length over all operation sequences <= 5 on either handle. Every sequence of <= 3 (thorough 4) operations over {Write, Read, Reset via either handle, Close, RemainingBytes} on empty and pre-filled buffers (NewBufferTransport and NewDefaultTransport(*bytes.Buffer)) plus random longer ones is executed; after each step both handles must show the model state. Generic transport: ReadableLen values incl. 0, negatives and absent method; registry: registered/unregistered callbacks, argument identity, result pass-through, the specific error.",
+   note="Trusted: TLC, projections of bytes.Buffer (Len/Bytes) and RemainingBytes. Thin use of the technique (the model has one variable); kept because aliasing is a history property.",
+   design="6 C19"),
 }
 NOT_YET = "check not built yet in this revision of /verif (work in progress; see DESIGN.md section 6 for the plan)"
 
